@@ -61,6 +61,16 @@ def configs(tier):
             for w in ('none', 'node'):
                 out.append(dict(family='sampler', entry='fast_SIR', graph=g, I0=I0, R0=R0, weights=w, full=False, tmax='inf',
                                 tags=['sampler', g, 'w:' + w] + (['R0'] if R0 else [])))
+    # fast_SIR end to end: given the sampled durations / delays the output is first-passage percolation (C11's obligations)
+    for g in ['K2', 'P3', 'K3'] + (['S3', 'P4'] if tier == 'thorough' else []):
+        for I0, R0 in graphs.automorphism_reduced_ics(g):
+            if len(R0) > 1 or (tier == 'quick' and len(I0) > 1 and g == 'K3'):
+                continue
+            out.append(dict(family='fpp-const', entry='fast_SIR', graph=g, I0=I0, R0=R0, weights='none', full=True, tmax='inf',
+                            tags=['fpp-const', g] + (['R0'] if R0 else [])))
+            if graphs.ALL[g][1] and len(I0) == 1:
+                out.append(dict(family='fpp-weighted', entry='fast_SIR', graph=g, I0=I0, R0=R0, weights='edge', full=True, tmax='inf', ties=False,
+                                tags=['fpp-weighted', g] + (['R0'] if R0 else [])))
     out.append(dict(family='truncexp', entry='_truncated_exponential_', tags=['truncexp']))
     for n in range(0, 4 if tier == 'quick' else 6):
         for k in range(0, n + 1):
@@ -152,6 +162,40 @@ def run_sampler(h, cfg):
     return simruns.result_struct(o, r.nodes)
 
 
+def run_fpp_const(h, cfg):
+    """fast_SIR, constant-rate path, full data: with the sampled (duration, delays to the sampled recipients) per infected node the
+    history must be first-passage percolation (a neighbour that was not sampled has delay +inf)"""
+    from checks import C11
+    from vlib.symx import INF
+    eng = symx.ENG
+    r = simruns.setup(cfg)
+    real = r.sim._trans_and_rec_time_Markovian_const_trans_
+    dur, dl = {}, {}
+
+    def spy(node, sus, tau, rec_rate_fxn):
+        delays, d = real(node, sus, tau, rec_rate_fxn)
+        dur[node] = d
+        for v in r.G.neighbors(node):
+            dl[(node, v)] = delays[v] if v in delays else INF
+        return delays, d
+    r.sim._trans_and_rec_time_Markovian_const_trans_ = spy
+    try:
+        ret = simruns.call_entry(h, r, 'no-exception')
+    finally:
+        r.sim._trans_and_rec_time_Markovian_const_trans_ = real
+    if ret is None:
+        return None
+    # nodes that were never infected never had a duration / delays drawn: they cannot be on a path anyway (give them +inf out-delays)
+    for u in r.G.nodes():
+        if u not in dur:
+            dur[u] = 0
+            for v in r.G.neighbors(u):
+                dl[(u, v)] = INF
+    C11.fpp_obligations(h, r, ret, dur, dl)
+    o = simruns.outputs(r, ret)
+    return simruns.result_struct(o, r.nodes)
+
+
 def run_truncexp(h, cfg):
     """the real _truncated_exponential_: for t = Exp draw, T > 0 the result r satisfies 0 <= r < T and t = r + k T for an integer k >= 0 (L4 gives the law)"""
     import z3 as _z3
@@ -204,6 +248,11 @@ def run_path(h, cfg):
         return run_sampler(h, cfg)
     if fam == 'truncexp':
         return run_truncexp(h, cfg)
+    if fam == 'fpp-const':
+        return run_fpp_const(h, cfg)
+    if fam == 'fpp-weighted':
+        from checks import C11
+        return C11.run_fpp(h, cfg)
     if fam == 'density':
         return run_density(h, cfg)
     r = simruns.setup(cfg)
@@ -248,7 +297,7 @@ def base_assumptions(cfg):
 
 
 def post(cfg, records, eng):
-    if cfg.get('family') in ('sampler', 'truncexp', 'density'):
+    if cfg.get('family') in ('sampler', 'truncexp', 'density', 'fpp-const', 'fpp-weighted'):
         return None
     G = graphs.make(cfg['graph'])
     tau, gamma = symx.Sym(z3.Real('tau')), symx.Sym(z3.Real('gamma'))
